@@ -1896,6 +1896,7 @@ class PGPKey(Armorable, ParentRef, PGPObject):
         if key.is_public:
             raise PGPError("Cannot add a public key as a subkey to this key")
 
+        okey, oparent = key._key, key._parent
         if key.is_primary:
             if len(key._children) > 0:
                 raise PGPError("Cannot add a key that already has subkeys as a subkey!")
@@ -1912,7 +1913,15 @@ class PGPKey(Armorable, ParentRef, PGPObject):
         key._parent = self
 
         ##TODO: skip this step if the key already has a subkey binding signature
-        bsig = self.bind(key, **prefs)
+        try:
+            bsig = self.bind(key, **prefs)
+
+        except Exception:
+            # a refused binding (e.g. this key is locked) must not leave an unbound subkey attached
+            del self._children[key.fingerprint.keyid]
+            key._key, key._parent = okey, oparent
+            raise
+
         key |= bsig
 
     def _get_key_flags(self, user=None):
